@@ -322,7 +322,7 @@ class Exec:
 
     def __init__(self, scratch: str, tag: str = "x"):
         Exec._n += 1
-        self.root = os.path.join(scratch, "ex-%d-%d-%s" % (os.getpid(), Exec._n, tag))
+        self.root = os.path.join(scratch, "ex-%07d-%07d-%s" % (os.getpid(), Exec._n, tag))  # fixed width: path length must not vary
         self.log_dir = os.path.join(self.root, "logs")
         self.snap_dir = os.path.join(self.root, "snaps")
         os.makedirs(self.log_dir, exist_ok=True)
